@@ -315,7 +315,32 @@ def r12_11(ctx):
         ctx.ob('R12.11', '%s:no-catch-all-attribute-hook' % ci.name, ok, hook if hook is not None else ci, None, why)
 
 
+
+def r12_12(ctx):
+    ctx.rule('R12.12', 'building a failure record is bounded: a stand-in that builds another of its own kind does so '
+                       'under a depth test against a limit (the copied frame chain does); a record that nests records '
+                       'for the whole cause / context chain has no bound and dies of recursion in the worker\'s error '
+                       'path', floor=1)
+    m = ctx.model
+    n_ = 0
+    for qn, ci in sorted(m.classes.items()):
+        if ci.module.name != 'einfo':
+            continue
+        init = ci.methods.get('__init__')
+        if init is None:
+            continue
+        for (n, c) in q.calls(init, ci.name):
+            n_ += 1
+            g = [t for (t, p) in q.guards_norm(init, n)]
+            bounded = any(('depth' in t or 'level' in t) and ('<' in t or '>' in t) for t in g)
+            ctx.ob('R12.12', '%s.__init__:self-nesting-is-bounded' % ci.name, bounded, init, c,
+                   'nested %s(...) under a depth test: %s' % (ci.name, g) if bounded else
+                   '%s.__init__ builds another %s without a depth bound' % (ci.name, ci.name))
+    q.need(n_ >= 1, 'no self-nesting stand-in found (the frame chain copy)')
+
+
 def run(ctx):
+    r12_12(ctx)
     r12_11(ctx)
     r12_10(ctx)
     r12_1(ctx, modules=('einfo', 'pool'), floor=6)
@@ -341,6 +366,7 @@ def run(ctx):
 _E ='billiard/einfo.py'
 _P = 'billiard/pool.py'
 MUTANTS = [
+    ('record-nests-a-record-per-cause', 'billiard/einfo.py', "        self.exception = ExceptionWithTraceback(exception, self.traceback)\n", "        self.exception = ExceptionWithTraceback(exception, self.traceback)\n        cause = getattr(exception, '__cause__', None)\n        if cause is not None and cause.__traceback__ is not None:\n            self.cause = ExceptionInfo((type(cause), cause, cause.__traceback__), internal)\n", 'R12.12'),
     ('stand-in-answers-none-for-everything', 'billiard/einfo.py', "class _Object:\n\n    def __init__(self, **kw):\n        [setattr(self, k, v) for k, v in kw.items()]\n", "class _Object:\n\n    def __init__(self, **kw):\n        [setattr(self, k, v) for k, v in kw.items()]\n\n    def __getattr__(self, name):\n        return None\n", 'R12.11'),
     ('record-remakes-the-exception', 'billiard/einfo.py', "        self.type, exception, tb = exc_info or sys.exc_info()\n", "        self.type, exception, tb = exc_info or sys.exc_info()\n        if not isinstance(exception, Exception):\n            exception = self.type(exception)\n", 'R12.10'),
     ('failure-record-without-the-outer-frame', _P, "                        result = (False, ExceptionInfo())\n",
